@@ -147,7 +147,8 @@ class Prog:
                 "classes": classes, "classDefs": defs, "classNames": names + ["ANY", "#"], "passes": passes,
                 "gattrValues": [[g, v] for g, v in sorted(getattr(self, "gattr_values", {}).items())],
                 "advances": getattr(self, "advances", []),
-                "points": [[nm, [[g, x, y] for g, (x, y) in sorted(v.items())]] for nm, v in sorted(getattr(self, "points", {}).items())]}
+                "points": [[nm, [[g, x, y] for g, (x, y) in sorted(v.items())]] for nm, v in sorted(getattr(self, "points", {}).items())],
+                "pointAttrs": getattr(self, "point_attrs", [])}
 
 
 def rule_text(r):
@@ -1233,6 +1234,11 @@ def gen_attach_program(rng):
     prog.class_defs["cOther"] = "glyphid(13..15)"
     prog.class_order.append("cOther")
     prog.points = pts
+    # marker glyph: every point component gets a recognisable value, so that its glyph-attribute id can be read from the font
+    pnames = ["uM", "lM", "uS", "lS"]
+    prog.glyph_stmts = ["gvMark = glyphid(2) {%s};" % "; ".join("%s = point(%dm, %dm)" % (pn, 1000 + 2 * i, 1001 + 2 * i) for i, pn in enumerate(pnames))]
+    prog.gattr = {"marker": 2, "markerBase": 1000, "numAttrs": 2 * len(pnames), "spaceGlyphs": [], "assigns": []}
+    prog.point_attrs = [[pn, 2 * i, 2 * i + 1] for i, pn in enumerate(pnames)]
     passes = []
     for _p in range(rng.randint(1, 2)):
         rules = []
